@@ -128,7 +128,7 @@ def _chk_metrics(args, res, old):
                 return "bootstrap CI (%r, %r) not ordered inside the bins' range [%r, %r]" % (lo, hi, x.min(), x.max())
 
 
-contract("cnvlib/segmetrics.py::do_segmetrics", params=dict(cnarr=ObjT("CopyNumArray"), segarr=ObjT("CopyNumArray")),
+contract("cnvlib/segmetrics.py::do_segmetrics#rt", params=dict(cnarr=ObjT("CopyNumArray"), segarr=ObjT("CopyNumArray")),
          bounded=True, gen=_gen_metrics, call=_call_metrics, props=("C17",),
          checks=[("statistics_on_the_right_bins", _chk_metrics)])
 
@@ -292,4 +292,46 @@ contract(
     props=("C17",), domain="skip",
     canaries=[("le_alpha", 'is_sig = cnarr["p_bintest"] < alpha', 'is_sig = cnarr["p_bintest"] <= alpha'),
               ("raw_log2_tested", 'cnarr["log2"] = resid', 'pass')],
+)
+
+
+# ----------------------------------------------------------------------------- deductive: segmetrics plumbing
+_SBIN = ObjT("CopyNumArray", data=TabT(index="range", chromosome=CHROM, start=Int, end=Int, gene=GENE, log2=Real, weight=Real),
+             meta=DictT(), bins_of=SeqT(SeriesT(Real)))
+_SSEG = ObjT("CopyNumArray", data=TabT(index="range", chromosome=CHROM, start=Int, end=Int, gene=GENE, log2=Real, probes=Int),
+             meta=DictT())
+
+contract("skgenome/gary.py::GenomicArray.iter_ranges_of",
+         params=dict(self=_SBIN, other=_SSEG, column=Lit("log2"), mode=Lit("outer"), keep_empty=Lit(True)),
+         yields=SeriesT(Real), trusted=True, requires=[],
+         ensures=[("one_series_per_range", "len(result) == len(other.data)")],
+         ghost=dict(result_is_field=("self", "bins_of")), props=(), domain="skip",
+         notes="assumed: one Series per query range holding the column values of the rows overlapping it (the ghost field "
+               "bins_of of the receiver); which rows those are is the bounded C07 contract iter_ranges_of#rt")
+
+_B = "cnarr.bins_of[i]"
+contract(
+    "cnvlib/segmetrics.py::do_segmetrics",
+    params=dict(cnarr=_SBIN, segarr=_SSEG, location_stats=Lit(("mean",)), spread_stats=Lit(("mse",)), interval_stats=Lit(()),
+                alpha=Real, bootstraps=Int, smoothed=Lit(False), skip_low=Lit(False)),
+    returns=ObjT("CopyNumArray", data=TabT(index="range"), meta=DictT()),
+    requires=["forall(0, len(cnarr.bins_of), lambda i: len(B) >= 2)".replace("B", _B)],
+    ensures=[
+        ("one_row_per_segment", "len(result.data) == len(segarr.data)"),
+        # each statistic over exactly the bins of that segment: the mean of their log2, and the mean squared deviation of
+        # their log2 from the segment's own log2
+        ("mean_over_the_segments_bins", "forall(0, len(result.data), lambda i: result.data.mean[i] == sumof(B) / len(B))".replace("B", _B)),
+        ("mse_of_deviations_from_segment_log2", "forall(0, len(result.data), lambda i: result.data.mse[i] == "
+                                                "sumof(Vec(len(B), lambda k: (B[k] - segarr.data.log2[i]) ** 2)) / len(B))".replace("B", _B)),
+        # the input segments' own columns are unchanged
+        ("segment_columns_unchanged", "forall(0, len(result.data), lambda i: result.data.chromosome[i] == segarr.data.chromosome[i] and "
+                                      "result.data.start[i] == segarr.data.start[i] and result.data.end[i] == segarr.data.end[i] and "
+                                      "result.data.log2[i] == segarr.data.log2[i] and result.data.probes[i] == segarr.data.probes[i])"),
+    ],
+    props=("C17",), domain="skip",
+    canaries=[("deviations_from_zero", "deviations = (bl - sl for bl, sl in zip(bins_log2s, segarr[\"log2\"]))", "deviations = (bl for bl in bins_log2s)"),
+              ("segment_log2_overwritten", "segarr = segarr.copy()", "segarr = segarr.copy(); segarr[\"log2\"] = 0.0")],
+    notes="verified for location_stats=('mean',), spread_stats=('mse',), no interval statistics, segments with at least two "
+          "bins (a one-bin segment's spread statistics are the decorator's default 0); the bins of each segment are the "
+          "ghost field cnarr.bins_of (= what iter_ranges_of yields)",
 )
